@@ -4,6 +4,15 @@ SHAPE_NOTE = ("Container shapes in the typing context are fixed and small while 
               "(floats as reals); pyvc itself is trusted (cross-checked against CPython on solver-generated inputs each run).")
 
 META = {
+    "C11": {
+        "text": "Level 'other': a syntactic effect system, not SMT. Obligations = all sites in the 30 package modules that "
+                "could make output depend on anything but inputs and options (hash-ordered iteration, ambient reads, "
+                "process-global or default-argument writes); each is discharged by a recorded argument or fails. A bounded "
+                "experiment (fresh processes under several PYTHONHASHSEED values, an in-process history with a failing run "
+                "in between) compares PQR bytes.",
+        "note": "Blind to aliasing through containers and to nondeterminism inside numpy / propka / pdbx; the logging "
+                "DuplicateFilter keeps state across runs but only suppresses log lines. " + SHAPE_NOTE,
+    },
     "C05": {
         "text": "Level 'other': contracts prove the placement mechanism (rigid-motion placement, distance-preserving torsion "
                 "moves with cell bracketing, peptide partners only across real peptide bonds) and an exhaustive template "
